@@ -30,6 +30,9 @@ type DeclD struct {
 	Fields  []FieldD `json:"fields,omitempty"`
 	Ty      *TyD     `json:"ty,omitempty"`      // typedef target / const type
 	Comment string   `json:"comment,omitempty"` // comment line(s) in front of a struct-like
+	// const only: the initialiser names an enum value (<enum>.V0) or another constant
+	ValFile int    `json:"val_file,omitempty"`
+	ValDecl string `json:"val_decl,omitempty"`
 }
 
 type FnD struct {
@@ -137,11 +140,14 @@ func (p *ProgD) constText(from int, t *TyD) string {
 	case "enum":
 		q := d.Name + ".V0"
 		if t.File != from {
+			if p.incIndex(from, t.File) < 0 {
+				return "0" // reached through a typedef of a file that `from` does not include
+			}
 			q = prefixOf(p.Files[t.File].Path) + "." + q
 		}
 		return q
 	case "typedef":
-		return p.constText(t.File, d.Ty)
+		return p.constText(from, d.Ty)
 	}
 	return "{}"
 }
@@ -168,7 +174,17 @@ func (p *ProgD) FileText(fi int) string {
 		case "typedef":
 			fmt.Fprintf(&sb, "typedef %s %s\n", p.tyText(fi, d.Ty), d.Name)
 		case "const":
-			fmt.Fprintf(&sb, "const %s %s = %s\n", p.tyText(fi, d.Ty), d.Name, p.constText(fi, d.Ty))
+			val := p.constText(fi, d.Ty)
+			if d.ValDecl != "" {
+				val = d.ValDecl
+				if t := p.decl(d.ValFile, d.ValDecl); t != nil && t.Kind == "enum" {
+					val += ".V0"
+				}
+				if d.ValFile != fi {
+					val = prefixOf(p.Files[d.ValFile].Path) + "." + val
+				}
+			}
+			fmt.Fprintf(&sb, "const %s %s = %s\n", p.tyText(fi, d.Ty), d.Name, val)
 		default:
 			if d.Comment != "" {
 				sb.WriteString(d.Comment + "\n")
